@@ -55,9 +55,12 @@ ASPECT = 32.0
 # wide intervals away from t = 0 (end / start = 32, 32, 64: custom non-uniform time grids) - bisection from [0, T] alone only gives end / start <= 2.
 # They take part in the 'exact' clause (the property's 1e-5) only: the tighter tolerances of the secondary clauses were measured on
 # dyadic intervals (on t = (2^-10, 2^-4) the unchanged code is 2e-6 off, inside 1e-5 and outside 1e-6).
-TIMES_WIDE = [(2.0**-8, 2.0**-3), (2.0**-5, 1.0), (2.0**-10, 2.0**-4)]
+TIMES_WIDE = [(2.0**-8, 2.0**-3), (2.0**-5, 1.0), (2.0**-10, 2.0**-4),
+              # ... and THIN slabs that start late (step << start): deep time refinement away from t = 0
+              (0.5, 0.5 + 2.0**-6), (1.0 - 2.0**-6, 1.0), (0.5, 0.5 + 2.0**-9), (0.25, 0.25 + 2.0**-5)]
 TIMES = [(0.0, 2.0**-k) for k in range(6)] + [(2.0**-k, 2.0**-(k - 1)) for k in range(1, 6)]
-TGRIDS = [(0.0, 1 / 32, 1 / 16, 1 / 8, 1 / 4, 1 / 2, 1.0)] + [(0.0, 2.0**-k) for k in range(5)] + [(0.0, 2.0**-8, 2.0**-3, 1.0), (0.0, 2.0**-5, 1.0), (0.0, 2.0**-10, 2.0**-4)]
+TGRIDS = [(0.0, 1 / 32, 1 / 16, 1 / 8, 1 / 4, 1 / 2, 1.0)] + [(0.0, 2.0**-k) for k in range(5)] + [(0.0, 2.0**-8, 2.0**-3, 1.0), (0.0, 2.0**-5, 1.0), (0.0, 2.0**-10, 2.0**-4),
+             (0.0, 0.5, 0.5 + 2.0**-6, 1.0 - 2.0**-6, 1.0), (0.0, 0.5, 0.5 + 2.0**-9), (0.0, 0.25, 0.25 + 2.0**-5)]
 EVAL_T = (0.05, 0.0625, 0.1, 0.25, 0.5, 1.0, 2.0)
 TOL_EXACT, TOL_LIN, TOL_ADD, TOL_DOM, TOL_EVAL = 1e-5, 1e-12, 1e-6, 1e-6, 1e-5
 TOL_ADD_IMPLIED = 2e-5  # u0 in {1, sine}: the property gives 1e-5 per value, hence 2e-5 for parent - children
